@@ -12,9 +12,13 @@ MODULES = [
     'contracts.externals',
     'contracts.c08_flows',
     'contracts.c08_replay',
+    'contracts.c09_state',
+    'contracts.c11_completion',
 ]
 
 EXTRA_CHECKS = {'C26': ['contracts.c26_census:check'],
+                'C09': ['contracts.c09_census:check'],
+                'C11': ['contracts.c11_bounded:check'],
                 'C05': ['contracts.c05_bounded:check']}
 
 EXPECTED_MIN_OBLIGATIONS = {'C18': 150}
